@@ -471,6 +471,14 @@
 ; the record-level validity rules of a binding (what ServiceBinding.Validate is proved to enforce; part of WF)
 (define-fun bindRecOK ((b ServiceBinding)) Bool
   (and (> (blen (ServiceBinding_Provider b)) 0) (> (blen (ServiceBinding_Owner b)) 0) (coinsValid (ServiceBinding_Deposit b)) (> (ServiceBinding_QoS b) 0)))
+; ASSUME A17: prefix iteration lists the present keys of the prefix in the lexicographic order of their bytes, so two stores with the same present keys under a prefix are iterated identically (used only by the second-export lemmas of C19)
+; prefix iteration lists the present keys of the prefix in the lexicographic order of their bytes: two stores with the same present keys
+; under a prefix are iterated identically (used only by the lemmas about a second export, C19)
+(define-fun samePresence ((r1 (Array Key Bytes)) (r2 (Array Key Bytes)) (p Prefix)) Bool
+  (forall ((k Key)) (! (=> (inPfx k p) (= (= (select r1 k) bnil) (= (select r2 k) bnil))) :pattern ((select r1 k)) :pattern ((select r2 k)))))
+(assert (forall ((r1 (Array Key Bytes)) (r2 (Array Key Bytes)) (p Prefix)) (! (=> (samePresence r1 r2 p) (= (itCount r1 p) (itCount r2 p))) :pattern ((itCount r1 p) (itCount r2 p)))))
+(assert (forall ((r1 (Array Key Bytes)) (r2 (Array Key Bytes)) (p Prefix) (i Int)) (! (=> (and (samePresence r1 r2 p) (<= 0 i) (< i (itCount r1 p))) (= (itKey r1 p i) (itKey r2 p i)))
+   :pattern ((itKey r1 p i) (itKey r2 p i)))))
 ; ---- the state right after genesis import (A0, base case of the inductions): no record of the families that only the
 ; running module writes (requests, responses, pending markers, both queues and their pointers, earnings, volumes)
 (define-fun runtimeKey ((k Key)) Bool (or (is-KReq k) (is-KResp k) (is-KActID k) (is-KActB k) (is-KExpQ k) (is-KExpH k) (is-KNewQ k) (is-KNewH k)
